@@ -270,6 +270,26 @@ def render_data(d: dict, shape, names: Names) -> Any:
     return [render_data(x, shape, names) for x in d["xs"]]
 
 
+def none_leaf_fields(d: dict, paths: list) -> list:
+    """indices (1-based) of the fields whose leaf, found by following the field's path through the abstract datum, is the value None"""
+    out = []
+    for i, path in enumerate(paths, start=1):
+        cur = d
+        for k in path:
+            if cur["c"] == "dict":
+                hit = [v for kk, v in zip(cur["ks"], cur["vs"]) if kk == k]
+                cur = hit[0] if hit else None
+            elif cur["c"] == "list" and k["g"] == "idx" and k["i"] < len(cur["xs"]):
+                cur = cur["xs"][k["i"]]
+            else:
+                cur = None
+            if cur is None:
+                break
+        if path and cur is not None and cur["c"] == "atom" and cur["a"] == "none":
+            out.append(i)
+    return out
+
+
 def has_bad(d: dict) -> bool:
     if d["c"] == "atom":
         return d["a"] == "bad"
@@ -485,6 +505,8 @@ def run_program(case: dict, seed: int, names: Names, out: dict, kind=None) -> No
         for probe in case["probes"]:
             datum = render_data(probe["d"], shape, names)
             mo = probe["out"]
+            if names.style() != 0 and any(not shape[i - 1]["req"] for i in none_leaf_fields(probe["d"], case["paths_in"])):
+                continue          # gamma declared the defaulted fields Optional[...] (defaults written as None / factories): None is well-typed there
             if has_bad(probe["d"]) and not mo["ok"] and any(e["kind"] == "Leaf" for e in mo["errs"]):
                 # the same probe with USER supplied field loaders that refuse an ill-typed leaf by raising a non-LoadError: loading
                 # fails in every mode, and what escapes is a bare exception or a plain ExceptionGroup - never a LoadError (an
@@ -700,6 +722,8 @@ def run_twin(c1: dict, c2: dict, seed: int, names: Names, out: dict) -> None:
     base2 = next(p for p in c2["probes"] if p["out"]["ok"])
     pairs = [(p, base2) for p in c1["probes"]] + [(base1, p) for p in c2["probes"]]
     for p1, p2 in pairs:
+        if names.style() != 0 and any(not shape[i - 1]["req"] for c, p in ((c1, p1), (c2, p2)) for i in none_leaf_fields(p["d"], c["paths_in"])):
+            continue          # None is well-typed for the Optional[...] fields gamma declared
         datum = {"p": render_data(p1["d"], shape, names), "q": render_data(p2["d"], shape, names)}
         for dtname, loader in loaders.items():
             out["runs"] += 1
